@@ -97,6 +97,16 @@ int main(int argc, char** argv) {
     const char* r2 = "none"; try { Matrix x = solve(Z, Bm); } catch (const matrix_ill_conditioned&) { r2 = "matrix_ill_conditioned"; } catch (const std::exception&) { r2 = "other"; }
     const char* r3 = "none"; try { Matrix x = inv(Z); } catch (const matrix_ill_conditioned&) { r3 = "matrix_ill_conditioned"; } catch (const std::exception&) { r3 = "other"; }
     std::printf("X singular %d %s %s %s\n", n, r1, r2, r3);
+    { // exactly singular symmetric matrices (rank one; zero), both storage orientations
+      SymmMatrix S1(n), S0(n); for (int i = 0; i < n; ++i) for (int j = 0; j <= i; ++j) { S1(i, j) = 1.0; S0(i, j) = 0.0; }
+      SpecialMatrix<double, internal::SymmEngine<ROW_UPPER_COL_LOWER>, false> U1(n); for (int i = 0; i < n; ++i) for (int j = i; j < n; ++j) U1(i, j) = 1.0;
+      Vector c(n); c = 1.0; c(0) = 2.0;                      // not in the range of the rank-one matrix
+      const char* s1 = "none"; try { Vector x = solve(S1, c); } catch (const matrix_ill_conditioned&) { s1 = "matrix_ill_conditioned"; } catch (const std::exception&) { s1 = "other"; }
+      const char* s2 = "none"; try { Matrix x = solve(S1, Bm); } catch (const matrix_ill_conditioned&) { s2 = "matrix_ill_conditioned"; } catch (const std::exception&) { s2 = "other"; }
+      const char* s3 = "none"; try { Vector x = solve(S0, c); } catch (const matrix_ill_conditioned&) { s3 = "matrix_ill_conditioned"; } catch (const std::exception&) { s3 = "other"; }
+      const char* s4 = "none"; try { Vector x = solve(U1, c); } catch (const matrix_ill_conditioned&) { s4 = "matrix_ill_conditioned"; } catch (const std::exception&) { s4 = "other"; }
+      std::printf("X singular-symmetric %d %s %s %s %s\n", n, s1, s2, s3, s4);
+    }
     Matrix R(n, n + 1); R = 1.0;
     const char* r4 = "none"; try { Matrix x = inv(R); } catch (const invalid_operation&) { r4 = "invalid_operation"; } catch (const std::exception&) { r4 = "other"; }
     std::printf("X nonsquare %d %s\n", n, r4);
